@@ -98,7 +98,16 @@ def run_check(prop: str, tier: str, seed: int) -> int:
     lean_modules = [lean_module] + list(getattr(mod, 'LEAN_MODULE_EXTRA', []))
     mod_ok = build.lake_rc == 0 or all(core.build_target(m)[0] for m in lean_modules)
     forbidden = core.grep_forbidden()
-    axioms = core.audit_axioms(lean_modules, theorems) if mod_ok else {t: None for t in theorems}
+    if mod_ok:
+        axioms = core.audit_axioms(lean_modules, theorems)
+    else:
+        # audit module by module, so that one broken module does not hide the theorems that still compile
+        axioms = {t: None for t in theorems}
+        for m_ in lean_modules:
+            if core.build_target(m_)[0]:
+                for t, ax in core.audit_axioms([m_], theorems).items():
+                    if ax is not None:
+                        axioms[t] = ax
     undischarged = []
     for t in theorems:
         ax = axioms.get(t)
@@ -234,7 +243,7 @@ def run_replay(path: str) -> int:
     prop = rp['property']
     mod = load_prop(prop)
     build = core.ensure_build()
-    driver = core.Driver() if build.driver_ok else None
+    driver = core.Driver() if build.driver_ok else (core.Driver(build.driver_baseline) if build.driver_baseline is not None else None)
     core.import_repo()
     ctx = Ctx(prop, rp.get('tier', 'quick'), rp.get('seed', 0), driver, build)
     out = Outcome()
